@@ -247,4 +247,9 @@ def subs(tier):
         Sub('lp_trunc', check_lp_trunc, gen=lambda: lp_case(with_cuts=False, max_items=4),
             examples={'quick': 150, 'thorough': 6000},
             doc='every truncation point: only complete frames are delivered, fed whole / in two / byte by byte'),
-    ]
+    ] + ([] if tier != 'thorough' else [
+        Sub('fuzz_line', check_line, fuzz='c15_line', fuzz_runs={'thorough': 960000},
+            doc='atheris/libFuzzer coverage-guided campaign on line framing (same case format and oracle as sub line)'),
+        Sub('fuzz_lp', check_lp, fuzz='c15_lp', fuzz_runs={'thorough': 960000},
+            doc='atheris/libFuzzer coverage-guided campaign on length-prefix framing (same oracle as sub lp)'),
+    ])
